@@ -193,7 +193,8 @@ def run(tier, seed, replay=None):
     # ---- the real binary ---------------------------------------------------------------
     P = 2
     hi = P + TICK + SLACK
-    worlds = {"small": {"idle": P, "udp": P}, "absent": None, "zero": {"idle": 0, "udp": 0}}
+    worlds = {"small": {"idle": P, "udp": P}, "absent": None, "zero": {"idle": 0, "udp": 0},
+              "udpzero": {"idle": P, "udp": 0}, "idlezero": {"idle": 0, "udp": P}}
     if tier == "thorough":
         worlds["large"] = {"idle": 7, "udp": 3}
     results = {}
@@ -208,10 +209,10 @@ def run(tier, seed, replay=None):
                  ("small", lambda: trickle(p, org, lp, 1.2, 5, True, hi + 2)), ("small", lambda: trickle(p, sink, lp, 1.2, 5, False, hi + 2)),
                  ("small", lambda: trickle(p, org, lp, 1.7, 4, True, hi + 2)),
                  ("small", lambda: udp_assoc(p, lp, hi + 2)), ("small", lambda: live_idle(p, org, lp))]
-        for k in ("absent", "zero"):
+        for k in ("absent", "zero", "udpzero", "idlezero"):
             pk, ok, sk, lk = started[k]
-            jobs += [(k, (lambda pk=pk, ok=ok, lk=lk: silent(pk, ok, lk, 4.5))), (k, (lambda pk=pk, ok=ok, lk=lk: live_idle(pk, ok, lk))),
-                     (k, (lambda pk=pk, lk=lk: udp_assoc(pk, lk, 4.5)))]
+            jobs += [(k, (lambda pk=pk, ok=ok, lk=lk: silent(pk, ok, lk, hi + 2))), (k, (lambda pk=pk, ok=ok, lk=lk: live_idle(pk, ok, lk))),
+                     (k, (lambda pk=pk, lk=lk: udp_assoc(pk, lk, hi + 2)))]
         if "large" in started:
             pl, ol, sl, ll = started["large"]
             jobs += [("large", lambda: silent(pl, ol, ll, 7 + TICK + SLACK + 2)), ("large", lambda: udp_assoc(pl, ll, 3 + TICK + SLACK + 2)), ("large", lambda: live_idle(pl, ol, ll))]
